@@ -3,6 +3,7 @@ package props
 import (
 	"bytes"
 	"encoding/base64"
+	"encoding/binary"
 	"encoding/hex"
 	"encoding/json"
 	"fmt"
@@ -10,6 +11,7 @@ import (
 	"os"
 	"sort"
 	"strings"
+	"syscall"
 	"time"
 
 	"github.com/ipfs/go-cid"
@@ -61,15 +63,16 @@ func containerView(r container.Reader) string {
 }
 
 var ioTokenSpecs = map[string]TokSpec{
-	"dlg":     {Kind: "dlg", Alg: "ed25519", Opts: map[string]string{"pol": "eq", "nonce": "12", "meta": "k=str-ascii"}},
-	"inv":     {Kind: "inv", Alg: "ed25519", Opts: map[string]string{"args": "k=int1", "nonce": "12", "iat": "whole", "meta": "k=str-astral"}},
-	"dlg3":    {Kind: "dlg", Alg: "ed25519", Key: 1, Opts: map[string]string{"nonce": "64", "sub": "other", "cmd": "/a/b"}},
-	"dlgbig":  {Kind: "dlg", Alg: "ed25519", Opts: map[string]string{"nonce": "64", "meta": "k=str-600"}},
-	"dlghuge": {Kind: "dlg", Alg: "ed25519", Key: 2, Opts: map[string]string{"nonce": "12", "meta": "k=bytes-70k"}},
-	"dlg1m":   {Kind: "dlg", Alg: "ed25519", Key: 1, Opts: map[string]string{"nonce": "12", "size:meta-bytes": "1048576"}},
-	"inv1m":   {Kind: "inv", Alg: "ed25519", Opts: map[string]string{"nonce": "12", "iat": "none", "size:arg-str": "1100000"}},
-	"dlg2":    {Kind: "dlg", Alg: "p256", Opts: map[string]string{"nonce": "12", "sub": "other"}},
-	"inv2":    {Kind: "inv", Alg: "secp256k1", Opts: map[string]string{"nonce": "12", "iat": "none", "prf": "odd"}},
+	"dlg":      {Kind: "dlg", Alg: "ed25519", Opts: map[string]string{"pol": "eq", "nonce": "12", "meta": "k=str-ascii"}},
+	"inv":      {Kind: "inv", Alg: "ed25519", Opts: map[string]string{"args": "k=int1", "nonce": "12", "iat": "whole", "meta": "k=str-astral"}},
+	"dlg3":     {Kind: "dlg", Alg: "ed25519", Key: 1, Opts: map[string]string{"nonce": "64", "sub": "other", "cmd": "/a/b"}},
+	"dlgbig":   {Kind: "dlg", Alg: "ed25519", Opts: map[string]string{"nonce": "64", "meta": "k=str-600"}},
+	"dlghuge":  {Kind: "dlg", Alg: "ed25519", Key: 2, Opts: map[string]string{"nonce": "12", "meta": "k=bytes-70k"}},
+	"dlg1m":    {Kind: "dlg", Alg: "ed25519", Key: 1, Opts: map[string]string{"nonce": "12", "size:meta-bytes": "1048576"}},
+	"inv1m":    {Kind: "inv", Alg: "ed25519", Opts: map[string]string{"nonce": "12", "iat": "none", "size:arg-str": "1100000"}},
+	"dlg2":     {Kind: "dlg", Alg: "p256", Opts: map[string]string{"nonce": "12", "sub": "other", "meta": "k=str-invtag"}},
+	"dlgrsa8k": {Kind: "dlg", Alg: "ed25519", Opts: map[string]string{"nonce": "12", "aud": "rsa8192"}},
+	"inv2":     {Kind: "inv", Alg: "secp256k1", Opts: map[string]string{"nonce": "12", "iat": "none", "prf": "odd", "args": "k=str-dlgtag"}},
 }
 
 type sealedTok struct {
@@ -111,8 +114,8 @@ func carBoundaries(car []byte) map[int]int {
 	res := map[int]int{}
 	pos, blocks := 0, -1 // the header section is not a block
 	for pos < len(car) {
-		l, n, err := uvarintStrict(car[pos:])
-		if err != nil {
+		l, n := binary.Uvarint(car[pos:]) // lenient: padded length prefixes are part of the artefact set
+		if n <= 0 {
 			panic("harness: bad CAR produced")
 		}
 		pos += n + int(l)
@@ -181,7 +184,30 @@ func ioArtefacts() []ioArtefact {
 		r = append(r, buildContainer(f, []string{"dlg"}))
 	}
 	r = append(r, buildContainer("car", nil), buildContainer("cbor", nil))
+	// the 3-token CAR with every section length written as a padded (non-minimal) varint: whatever a reader
+	// makes of such a file, it makes the same of it from memory and from a stream in any chunking
+	padded := padCarLengths(buildContainer("car", []string{"dlg", "inv", "dlg3"}).Data)
+	pa := ioArtefact{Name: "ctn-car-padded-lengths", Kind: "ctn", Format: "car", Data: padded}
+	pa.Boundaries = carBoundaries(padded)
+	r = append(r, pa, ioArtefact{Name: "ctn-car64-padded-lengths", Kind: "ctn", Format: "car64", Data: []byte(base64.StdEncoding.EncodeToString(padded))})
 	return r
+}
+
+// padCarLengths rewrites every section length prefix of a CAR with one padding group (0xac 0x02 -> 0xac 0x82 0x00).
+func padCarLengths(car []byte) []byte {
+	var out []byte
+	pos := 0
+	for pos < len(car) {
+		l, n := binary.Uvarint(car[pos:])
+		if n <= 0 {
+			panic("harness: bad CAR produced")
+		}
+		pre := append([]byte{}, car[pos:pos+n]...)
+		pre[len(pre)-1] |= 0x80
+		out = append(append(append(out, pre...), 0x00), car[pos+n:pos+n+int(l)]...)
+		pos += n + int(l)
+	}
+	return out
 }
 
 func (a ioArtefact) named(n string) ioArtefact {
@@ -376,7 +402,7 @@ func c18ReadSub() *engine.Sub {
 	}
 	return &engine.Sub{
 		Name: "readers",
-		Rule: "every streaming decoder on every matching artefact (sealed and DAG-JSON tokens, containers; plus tokens and containers of 1 MiB and more, for which only the fault-free chunkings are compared): (1) chunk sizes {1,2,3,7,whole} x EOF {separate, with data}, and the stream cut into two pieces after k bytes for every k (and three: k, 1, rest) - one artefact carries characters of 1 to 4 bytes at several alignments -: result equals the buffered API's; (2) positional faults: an injected error after k delivered bytes for every k in [0,len] (returned alone, and returned together with the bytes up to k) and an early EOF for every k in [0,len) must yield an error (a CAR cut exactly at a block boundary yields exactly the blocks before it); one Read answering (0, nil) - nothing happened, call again - after k delivered bytes for every k, with chunks {whole, 1, 7}, must not change the result; (3) E3: deviation-bounded DFS over per-Read answers {all, 1 byte, half, last-bytes-with-EOF, early EOF, error, bytes-together-with-error, (0, nil) (at most twice, never twice in a row; explored in a second pass of the thorough tier with one deviation less: an empty read combined with one other deviation)}: fault-free schedules agree with the buffered API, faulty ones return an error; non-trivial = executions with at least one deviation or fault",
+		Rule: "every streaming decoder on every matching artefact (sealed and DAG-JSON tokens, containers; plus tokens and containers of 1 MiB and more, for which only the fault-free chunkings are compared): (1) chunk sizes {1,2,3,7,whole} x EOF {separate, with data}, and the stream cut into two pieces after k bytes for every k (and three: k, 1, rest) - one artefact carries characters of 1 to 4 bytes at several alignments -: result equals the buffered API's; (2) positional faults: an injected error after k delivered bytes for every k in [0,len] (returned alone, and returned together with the bytes up to k) and an early EOF for every k in [0,len) must yield an error (a CAR cut exactly at a block boundary yields exactly the blocks before it); one Read answering (0, nil) - nothing happened, call again - after k delivered bytes for every k, with chunks {whole, 1, 7}, must not change the result; one Read failing after k bytes with an error that calls itself temporary (EAGAIN, EINTR, deadline exceeded, a net-style timeout, ErrNoProgress, ErrShortBuffer), the reader being able to go on afterwards, must yield an error; (3) E3: deviation-bounded DFS over per-Read answers {all, 1 byte, half, last-bytes-with-EOF, early EOF, error, bytes-together-with-error, (0, nil) (at most twice, never twice in a row; explored in a second pass of the thorough tier with one deviation less: an empty read combined with one other deviation)}: fault-free schedules agree with the buffered API, faulty ones return an error; non-trivial = executions with at least one deviation or fault",
 		Bound: func(t string) string {
 			return fmt.Sprintf("E3 deviation bound %d (per artefact x API), all offsets for positional faults, 10 chunkings", tierN(t, 2, 3))
 		},
@@ -420,6 +446,9 @@ func c18ReadSub() *engine.Sub {
 					if !emit(&c18ReadCase{Art: a.Name, API: api.Name, Mode: "pos-split", At: -1}) {
 						return
 					}
+					if !emit(&c18ReadCase{Art: a.Name, API: api.Name, Mode: "pos-transient-error", At: -1}) {
+						return
+					}
 					if a.Huge {
 						continue
 					}
@@ -447,11 +476,35 @@ func c18ReadSub() *engine.Sub {
 				}
 			}
 			want, werr := api.Buffered(a.Data)
+			wantErr := false
 			if werr != nil {
-				ctx.Failf(cs, "buffered-api-fails/"+api.Name, "the byte-slice variant of %s fails on %s, which its own writer produced: %v", api.Name, a.Name, werr)
+				handBuilt := strings.Contains(a.Name, "padded")
+				if !handBuilt {
+					ctx.Failf(cs, "buffered-api-fails/"+api.Name, "the byte-slice variant of %s fails on %s, which its own writer produced: %v", api.Name, a.Name, werr)
+				}
 				want, werr = api.Stream(bytes.NewReader(a.Data))
 				if werr != nil {
-					panic(fmt.Sprintf("harness: %s fails on %s: %v", api.Name, a.Name, werr))
+					if !handBuilt {
+						panic(fmt.Sprintf("harness: %s fails on %s: %v", api.Name, a.Name, werr))
+					}
+					// a hand-built artefact that the reader refuses from memory: it must refuse it in every chunking
+					// (only the fault-free modes are run; "<refused>" stands for the error)
+					wantErr, want = true, "<refused>"
+					switch cs.Mode {
+					case "chunking", "pos-split", "pos-stall":
+					default:
+						ctx.Outcome("refused-artefact")
+						return
+					}
+				}
+			}
+			if wantErr {
+				inner := api.Stream
+				api.Stream = func(r io.Reader) (string, error) {
+					if g, e := inner(r); e == nil {
+						return g, nil
+					}
+					return "<refused>", nil
 				}
 			}
 			ctx.States(1)
@@ -470,6 +523,41 @@ func c18ReadSub() *engine.Sub {
 					ctx.Failf(cs, "stream-differs-from-buffered/"+tag, "%s on %s with chunk=%d eofWithData=%v differs from the buffered result", api.Name, a.Name, cs.Chunk, cs.EOFWithData)
 				} else {
 					ctx.Outcome("stream-equals-buffered")
+				}
+			case "pos-transient-error":
+				// one Read fails (no data) after k bytes with an error that calls itself temporary - EAGAIN, EINTR, a
+				// deadline, a net timeout - and the reader would go on serving the rest: the reader has failed
+				lo, hi := 0, len(a.Data)
+				if cs.At >= 0 {
+					lo, hi = cs.At, cs.At
+				}
+				for k := lo; k <= hi; k++ {
+					if a.Huge && c18HugeSkip(a, k) {
+						continue
+					}
+					for ei, e := range c18TransientErrors {
+						if a.Huge && ei > 0 {
+							continue
+						}
+						pr := &engine.PosReader{Data: a.Data, FailAt: k, Mode: "transient", Err: e}
+						got, err := api.Stream(pr)
+						ctx.Eval(1)
+						ctx.Trans(1)
+						ctx.Nontrivial(1)
+						rc := &c18ReadCase{Art: cs.Art, API: cs.API, Mode: cs.Mode, At: k, ArtHex: hex.EncodeToString(a.Data)}
+						switch {
+						case err != nil:
+							ctx.Outcome("fault-reported")
+						case !pr.Hit:
+							ctx.Outcome("fault-not-reached")
+							if got != want {
+								ctx.Failf(rc, "stream-differs-from-buffered/"+tag, "%s on %s (error armed at %d, never reached) differs from buffered", api.Name, a.Name, k)
+							}
+						default:
+							ctx.Outcome("fault-swallowed")
+							ctx.Failf(rc, "fault-swallowed/temporary-error/"+tag, "%s on %s returns a result although one Read, after %d of %d bytes, failed with %q", api.Name, a.Name, k, len(a.Data), e)
+						}
+					}
 				}
 			case "pos-split":
 				// the stream arrives in two pieces (three: the second one byte long) cut after k bytes, for every k
@@ -624,6 +712,15 @@ func c18ReadSub() *engine.Sub {
 		},
 	}
 }
+
+// tempErr is an error that describes itself as temporary and as a timeout (like a net.Error).
+type tempErr struct{}
+
+func (tempErr) Error() string   { return "harness: injected temporary error" }
+func (tempErr) Temporary() bool { return true }
+func (tempErr) Timeout() bool   { return true }
+
+var c18TransientErrors = []error{syscall.EAGAIN, syscall.EINTR, os.ErrDeadlineExceeded, tempErr{}, io.ErrNoProgress, io.ErrShortBuffer}
 
 // piecesReader delivers data in pieces of the given sizes, then everything that is left.
 type piecesReader struct {
